@@ -3,10 +3,11 @@
 set -e
 export GOFLAGS=-mod=mod GOPROXY=off GOSUMDB=off GOTOOLCHAIN=local
 S="$1"
+R="${VERIF_ROOT:-/verif}"
 mkdir -p "$S"
 rm -rf "$S/repo" "$S/drv"
-/verif/bin/rewrite -src "${VERIF_REPO:-/repo}" -dst "$S/repo" -overlay /verif/sim/overlay ${VERIF_NOKNOB:+-noknob}
-cp -r /verif/sim/drv "$S/drv"
+"$R/bin/rewrite" -src "${VERIF_REPO:-/repo}" -dst "$S/repo" -overlay "$R/sim/overlay" ${VERIF_NOKNOB:+-noknob}
+cp -r "$R/sim/drv" "$S/drv"
 cd "$S/drv"
 if [ "$2" = race ]; then
   go build -race -o "$S/simdrv-race" .
